@@ -97,7 +97,9 @@ func RecordRandom(cfg Config, rng *rand.Rand, withCancel bool) (log []Event, ok 
 			r.mu.Lock()
 			r.log = append(r.log, Event{"e": "cancel"})
 			r.mu.Unlock()
-			r.sched.Cancel()
+			// in a goroutine: a Cancel that waits for the running stages must not stop the driver
+			// from releasing them
+			go r.sched.Cancel()
 		}
 		infl := r.inflightSet()
 		if len(infl) == 0 {
